@@ -206,6 +206,97 @@ let h_validate_row args =
       Bytes.to_string b
   | _ -> "ERR args"
 
+(* ---- parsing the canonical text form of values and messages *)
+let parse_val_at (s : string) (pos : int ref) : F.goval =
+  let n = String.length s in
+  let read_int () =
+    let st = !pos in
+    if !pos < n && s.[!pos] = '-' then incr pos;
+    while !pos < n && s.[!pos] >= '0' && s.[!pos] <= '9' do incr pos done;
+    int_of_string (String.sub s st (!pos - st))
+  in
+  let rec value () =
+    let c = s.[!pos] in
+    incr pos;
+    match c with
+    | 'u' -> F.VU (n_of_int (read_int ()))
+    | 'i' -> F.VI (z_of_int (read_int ()))
+    | 'f' -> F.VF (n_of_int (read_int ()))
+    | 'a' -> F.VLat (z_of_int (read_int ()))
+    | 'o' -> F.VLng (z_of_int (read_int ()))
+    | 'n' -> F.VNil
+    | 'x' -> F.VOther
+    | 's' ->
+        let st = !pos in
+        while !pos < n && (match s.[!pos] with '0' .. '9' | 'a' .. 'f' -> true | _ -> false) do incr pos done;
+        F.VStr (bytes_of_hex (let h = String.sub s st (!pos - st) in if h = "" then "-" else h))
+    | 't' ->
+        let sec = read_int () in
+        incr pos;
+        let nsec = read_int () in
+        incr pos;
+        if s.[!pos] = 'u' then (incr pos; F.VTime (z_of_int sec, n_of_int nsec, None))
+        else F.VTime (z_of_int sec, n_of_int nsec, Some (z_of_int (read_int ())))
+    | 'l' ->
+        incr pos; (* ( *)
+        let items = ref [] in
+        if s.[!pos] = ')' then incr pos
+        else begin
+          let continue = ref true in
+          while !continue do
+            items := value () :: !items;
+            if s.[!pos] = ',' then incr pos else (incr pos; continue := false)
+          done
+        end;
+        F.VList (List.rev !items)
+    | _ -> failwith ("bad value at " ^ string_of_int !pos)
+  in
+  value ()
+
+let parse_msg (s : string) : F.msg =
+  let lb = String.index s '[' in
+  let num = int_of_string (String.sub s 0 lb) in
+  let pos = ref (lb + 1) in
+  let vals = ref [] in
+  if s.[!pos] = ']' then ()
+  else begin
+    let continue = ref true in
+    while !continue do
+      vals := parse_val_at s pos :: !vals;
+      if s.[!pos] = ';' then incr pos else continue := false
+    done
+  end;
+  { F.m_num = n_of_int num; F.m_fields = List.rev !vals }
+
+let msg_to_string (m : F.msg) = let b = Buffer.create 256 in show_msg b m; Buffer.contents b
+
+(* expand <gstate> <msg> -> "<gstate'> <msg'>" | "none" *)
+let h_expand args =
+  match args with
+  | [ g; m ] -> (
+      match F.expand_components (parse_gstate g) (parse_msg m) with
+      | None -> "none"
+      | Some (m', g') -> show_gstate g' ^ " " ^ msg_to_string m')
+  | _ -> "ERR args"
+
+let int_list s = if s = "-" then [] else List.map int_of_string (String.split_on_char ',' s)
+
+(* spec_acc <bits> <v,v,...> -> running sums per the property *)
+let h_spec_acc args =
+  match args with
+  | [ bits; vs ] ->
+      String.concat ","
+        (List.map (fun x -> string_of_int (int_of_n x))
+           (F.spec_accumulate (n_of_int (int_of_string bits)) (List.map n_of_int (int_list vs))))
+  | _ -> "ERR args"
+
+let h_spec_csd args =
+  match args with
+  | [ b0; b1; b2 ] ->
+      let b0 = n_of_int (int_of_string b0) and b1 = n_of_int (int_of_string b1) and b2 = n_of_int (int_of_string b2) in
+      Printf.sprintf "%d %d" (int_of_n (F.spec_csd_speed b0 b1)) (int_of_n (F.spec_csd_distance_raw b1 b2))
+  | _ -> "ERR args"
+
 (* profile_wf_report -> "ok" or "msg.field.code msg.field.code ..." *)
 let h_profile_wf _ =
   if F.profile_wf then "ok"
@@ -213,7 +304,30 @@ let h_profile_wf _ =
     String.concat " "
       (List.map (fun ((m, f), c) -> Printf.sprintf "%d.%d.%d" (int_of_n m) (int_of_n f) (int_of_n c)) F.profile_wf_report)
 
+(* routing_wf -> "ok" or failing file types / codes; find_slot ft mn -> "-" | "i multi expands" *)
+let h_routing_wf _ =
+  if F.routing_wf then "ok" else String.concat " " (List.map (fun x -> string_of_int (int_of_n x)) F.routing_wf_report)
+
+let h_find_slot args =
+  match args with
+  | [ ft; mn ] -> (
+      match F.find_slot (n_of_int (int_of_string ft)) (n_of_int (int_of_string mn)) with
+      | None -> "-"
+      | Some (i, multi) ->
+          Printf.sprintf "%d %d %d" (int_of_nat i) (if multi then 1 else 0)
+            (if F.expands (n_of_int (int_of_string mn)) then 1 else 0))
+  | _ -> "ERR args"
+
+let h_ft_valid args =
+  match args with [ ft ] -> if F.ft_valid (n_of_int (int_of_string ft)) then "1" else "0" | _ -> "ERR args"
+
 let install (register : string -> (string list -> string) -> unit) =
+  register "expand" h_expand;
+  register "spec_acc" h_spec_acc;
+  register "spec_csd" h_spec_csd;
+  register "routing_wf" h_routing_wf;
+  register "find_slot" h_find_slot;
+  register "ft_valid" h_ft_valid;
   register "profile_wf" h_profile_wf;
   register "decode" h_decode;
   register "validate" h_validate;
